@@ -1,5 +1,6 @@
 import Driver.Proto
 import Dawgs.Spec.C19
+import Driver.C18
 /-! Monitor for C19 (`c19mon`): judges the observed directory listings (names, sizes, sha256, what the
 checkpoint/manifest records) written by the harness suite `obs19` after every crash, read fault and
 resume of the real Dump. Input lines are `<op> => <observation>`; answers `ok …` / `reject <class> <detail>`. -/
@@ -13,7 +14,7 @@ structure St where
   listing : Listing := {}
   strayPresent : Bool := false
   damaged : Bool := false            -- a recorded fragment was corrupted or removed behind the dump's back
-  srcChanged : Bool := false         -- a graph already counted by the checkpoint changed
+  delta : List (String × Int × Int) := []  -- per graph: net change of (nodes, relationships) of the source since the fresh dump
   expectSame : Bool := false         -- the directory is a finished dump: `final` must answer `same`
 
 def setField (m : List (String × String)) (k v : String) : List (String × String) := (k, v) :: m.filter (·.1 != k)
@@ -80,6 +81,34 @@ def counted (st : St) (g : String) : Bool :=
     | _ => true
   | _, _ => false
 
+def bump (m : List (String × Int × Int)) (g : String) (dn de : Int) : List (String × Int × Int) :=
+  match m.find? (·.1 == g) with
+  | some (_, a, b) => (g, a + dn, b + de) :: m.filter (·.1 != g)
+  | none => (g, dn, de) :: m
+
+/-- a graph the checkpoint already counts (completed, or in progress with a snapshot) whose source changed in
+at least ONE of the two dimensions since the interrupted dump -/
+def changedCounted (st : St) : Option String :=
+  (st.delta.find? (fun (g, dn, de) => (dn != 0 || de != 0) && counted st g)).map (·.1)
+
+/-- the temp file of the fragment the interrupted dump would write next, read off the checkpoint in the listing -/
+def nextTmpName (st : St) : Option String :=
+  match st.listing.find ".retriever-checkpoint.json" with
+  | none => none
+  | some e =>
+    match e.desc.splitOn ":" with
+    | ["ckpt", _, cur] =>
+      match cur.splitOn "/" with
+      | [idx, phase, _, _, files] =>
+        match idx.toNat?.bind (fun i => st.graphs[i]?) with
+        | some g =>
+          let n := if files == "-" then 0 else ((files.splitOn "+").filter (fun f => f.startsWith phase)).length
+          let ph := if phase == "nodes" then Dawgs.C18.Phase.nodes else Dawgs.C18.Phase.edges
+          some (Driver.C18.renderPath (getField st.dumpOpts "codec" "none") ⟨g, ph, n + 1⟩ ++ ".tmp")
+        | none => none
+      | _ => none
+    | _ => none
+
 def step (st : St) (ts : List String) : St × String :=
   let (op, out) := splitArrow ts
   match op, out with
@@ -90,21 +119,32 @@ def step (st : St) (ts : List String) : St × String :=
   | ["opts", c, b, sh], ["ok"] => ({ st with opts := setField (setField (setField st.opts "codec" c) "batch" b) "shard" sh }, "ok")
   | ["set", k, v], ["ok"] => ({ st with opts := setField st.opts k (if k == "salt" && v == "-" then "" else v) }, "ok")
   | ["plan"], "ok" :: _ => (st, "ok")
-  | ["torn"], ["ok"] => (st, "ok")
+  | ["torn"], ["ok"] => ({ st with expectSame := false }, "ok")
   | ["stray", name], ["ok"] =>
-    ({ st with strayPresent := true,
-               listing := { st.listing with entries := st.listing.entries ++ [{ path := name, desc := "stray", size := 6, sha := "stray" }] } }, "ok")
+    -- the three temporaries a resume knows (and removes) are not foreign; a file dropped onto a recorded fragment
+    -- damages it; onto the manifest / checkpoint it replaces a control file (any refusal is fine); everything else is
+    -- a file the checkpoint does not account for
+    let known := name == ".retriever-checkpoint.json.tmp" || name == "manifest.json.tmp" || some name == nextTmpName st
+    let control := name == "manifest.json" || name == ".retriever-checkpoint.json"
+    let hit := st.listing.recorded.any (fun r => r.path == name)
+    let entry : Entry := { path := name, desc := if name.endsWith ".tmp" then "tmp" else "stray", size := 6, sha := "stray" }
+    ({ st with expectSame := false, strayPresent := st.strayPresent || !(known || control || hit), damaged := st.damaged || hit || control,
+               listing := { st.listing with entries := st.listing.entries.filter (fun e => e.path != name) ++ [entry] } }, "ok")
+  | ["straydir", _], ["ok"] => (st, "ok")
   | [verb, _], ["ok", path] =>
     if verb == "corrupt" || verb == "rmfrag" then
       let hit := st.listing.recorded.any (fun r => r.path == path)
       let es := if verb == "rmfrag" then st.listing.entries.filter (fun e => e.path != path)
                 else st.listing.entries.map (fun e => if e.path == path then { e with desc := "stray", sha := "tampered" } else e)
       -- removing a file the checkpoint does not record cannot make the directory worse; corrupting one keeps it unexpected
-      ({ st with damaged := st.damaged || hit, strayPresent := st.strayPresent || (!hit && verb == "corrupt"),
+      ({ st with expectSame := false, damaged := st.damaged || hit, strayPresent := st.strayPresent || (!hit && verb == "corrupt"),
                  listing := { st.listing with entries := es } }, "ok")
     else (st, "reject bad-output")
   | [_, _], ["none"] => (st, "ok")
-  | ["srcadd", g, _], ["ok"] => ({ st with srcChanged := st.srcChanged || counted st g, expectSame := false }, "ok")
+  | ["srcadd", g, _], ["ok"] => ({ st with delta := bump st.delta g 1 0, expectSame := false }, "ok")
+  | ["srcaddedge", g, _, _, _], ["ok"] => ({ st with delta := bump st.delta g 0 1, expectSame := false }, "ok")
+  | ["srcdelnode", g, _], ["ok"] => ({ st with delta := bump st.delta g (-1) 0, expectSame := false }, "ok")
+  | ["srcdeledge", g, _], ["ok"] => ({ st with delta := bump st.delta g 0 (-1), expectSame := false }, "ok")
   | ["final"], ans :: _ =>
     let st' := { st with expectSame := false }
     if ans == "same" then (st', "ok")
@@ -118,7 +158,7 @@ def step (st : St) (ts : List String) : St × String :=
     | none => (st, "reject bad-observation")
     | some (status, l) =>
       let completed := status == ["completed"] || status == ["ok"]
-      let base : St := if fresh then { st with dumpOpts := st.opts, strayPresent := false, damaged := false, srcChanged := false } else st
+      let base : St := if fresh then { st with dumpOpts := st.opts, strayPresent := false, damaged := false, delta := [] } else st
       let st' := { base with listing := l, expectSame := completed }
       let checks : List (Option String) :=
         [ (if resumed && st.damaged then none else manifestMeansComplete l),   -- the harness itself damaged a recorded fragment
@@ -129,7 +169,7 @@ def step (st : St) (ts : List String) : St × String :=
             then some "resume-refused-although-no-bound-option-changed" else none),
           if resumed && completed && st.strayPresent then some "resume-accepted-unexpected-file" else none,
           if resumed && completed && st.damaged then some "resume-accepted-damaged-fragment" else none,
-          if resumed && completed && st.srcChanged then some "resume-accepted-changed-source" else none,
+          (if resumed && completed then (changedCounted st).map (fun g => "resume-accepted-changed-source " ++ g) else none),
           if fresh && status.head? == some "refused" then some "fresh-dump-refused" else none,
           if completed then finishedDump l else none ]
       match firstSome checks with
